@@ -226,6 +226,9 @@ class GraphicsTerminal:
         self.shellscript_out: Optional[TextIO] = shellscript_out
         self.reset_by_scrolling: bool = reset_by_scrolling
         self.tracked_cursor_position: Optional[Tuple[int, int]] = None
+        # True if scroll margins may be set: vertical moves then stop at the
+        # margins, which are not tracked.
+        self.margins_maybe_set: bool = False
 
     @staticmethod
     def _open(filename: Union[str, BinaryIO, None], write: bool) -> BinaryIO:
@@ -392,6 +395,8 @@ class GraphicsTerminal:
             self.set_tracked_cursor_position(0, cur_y + rows)
         else:
             self.set_tracked_cursor_position(cur_x + cols, cur_y + rows - 1)
+        if self.margins_maybe_set and not put_command.do_not_move_cursor:
+            self.tracked_cursor_position = None
         self.out_display.flush()
 
     def send_command(
@@ -601,6 +606,7 @@ class GraphicsTerminal:
             self._write(b"\033[0m", comment="Reset brush")
             # Reset the scroll margins.
             self._write(b"\033[r", comment="Reset scroll margins")
+            self.margins_maybe_set = False
             # Scroll up to clear the screen.
             cols, lines = self.get_size()
             self.scroll_up(lines)
@@ -609,6 +615,7 @@ class GraphicsTerminal:
         self._write(b"\033c", comment="Reset terminal")
         self.out_display.flush()
         self.tracked_cursor_position = (0, 0)
+        self.margins_maybe_set = False
 
     def clear_line(self):
         self._write(b"\033[2K", comment="Clear line")
@@ -702,6 +709,8 @@ class GraphicsTerminal:
                     comment=f"Move cursor left by {-right}",
                 )
         self.out_display.flush()
+        if down and self.margins_maybe_set:
+            self.tracked_cursor_position = None
         if self.tracked_cursor_position is not None:
             self.set_tracked_cursor_position(
                 self.tracked_cursor_position[0] + (right or 0),
@@ -742,6 +751,7 @@ class GraphicsTerminal:
         )
         self.out_display.flush()
         self.tracked_cursor_position = None
+        self.margins_maybe_set = True
 
     def scroll_down(self, lines: int = 1):
         self._write(b"\033[%dT" % lines, comment=f"Scroll down by {lines}")
